@@ -1,4 +1,5 @@
 import Proofs.C13
+import Proofs.C12.WindowConst
 /-!
 # C13 — client invariant and observational equivalence (plain shard cache, lookups, counts)
 -/
@@ -25,11 +26,17 @@ def lastDesc : List Step → Desc → Desc
 
 def CanonSteps (steps : List Step) : Prop := ∀ s ∈ steps, ∀ d, s = .upd d → Canon d
 
-def eraseV (d : Desc) : Desc := d.map fun m => { m with versions := [] }
-
 /-- the selection predicate of a plain query, evaluated on the index descriptor. -/
 def sel (c : Client) (st : Streams) (k : Key) : Inst → Bool :=
   fun i => (shardIds c.cfg c.idx (st k.ident) k.size 0 0).contains i.id
+
+/-- the selection predicate of a look-back query whose window starts at `after`. -/
+def selLB (c : Client) (st : Streams) (k : LKey) (after : Int) : Inst → Bool :=
+  fun i => (shardIds c.cfg c.idx (st k.ident) k.size k.period (after + k.period)).contains i.id
+
+/-- no registration / read-only timestamp of `m` lies in `[after, before)`. -/
+def TsBound (after before : Int) (m : Inst) : Prop :=
+  (m.regTs ≥ after → before ≤ m.regTs) ∧ (m.roTs ≥ after → before ≤ m.roTs)
 
 structure Inv (st : Streams) (c : Client) : Prop where
   cdesc : Canon c.desc
@@ -37,6 +44,10 @@ structure Inv (st : Streams) (c : Client) : Prop where
   keyEq : c.idx.map key = c.desc.map key
   cache : ∀ k s, lookupAssoc k c.cache = some s →
     isSelf c k.size 0 0 = false ∧ s.members.map key = (c.idx.filter (sel c st k)).map key
+  lb : ∀ k e, lookupAssoc k c.lbCache = some e →
+    isSelf c k.size k.period (e.after + k.period) = false ∧
+    e.sub.members.map key = (c.idx.filter (selLB c st k e.after)).map key ∧
+    ∀ m ∈ e.sub.members, TsBound e.after e.before m
 
 /-! ### association lists -/
 
@@ -112,9 +123,9 @@ theorem get?_of_mem : ∀ (d : Desc), Canon d → ∀ n ∈ d, d.get? n.id = som
       exact ih hc'.2 n hn'
 
 /-- serving a cached sub-ring: after the State/Timestamp refresh it equals the freshly selected
-members of the latest descriptor in every field except Versions. -/
+members of the latest descriptor. -/
 theorem refresh_eq (desc : Desc) (e : Nat) : ∀ (L0 L2 : Desc), L0.map key = L2.map key →
-    (∀ n ∈ L2, desc.get? n.id = some n) → eraseV (refresh desc ⟨L0, e⟩).members = eraseV L2 := by
+    (∀ n ∈ L2, desc.get? n.id = some n) → (refresh desc ⟨L0, e⟩).members = L2 := by
   intro L0
   induction L0 with
   | nil => intro L2 h _; cases L2 with
@@ -130,18 +141,19 @@ theorem refresh_eq (desc : Desc) (e : Nat) : ∀ (L0 L2 : Desc), L0.map key = L2
       simp only [key, Prod.mk.injEq] at hk
       have hgn := hg n List.mem_cons_self
       have := ih L2 h.2 (fun x hx => hg x (List.mem_cons_of_mem _ hx))
-      unfold eraseV refresh at this ⊢
-      simp only [List.map_cons, List.map_map] at this ⊢
+      unfold refresh at this ⊢
+      simp only [List.map_cons] at this ⊢
       rw [List.cons.injEq]
-      refine ⟨?_, by simpa [List.map_map] using this⟩
-      simp only [Function.comp, hk.1, hgn]
+      refine ⟨?_, this⟩
+      simp only [hk.1, hgn]
       cases m; cases n
       simp_all
 
 /-! ### the invariant is preserved -/
 
 theorem inv_init (st : Streams) (cfg : Cfg) : Inv st { cfg := cfg } :=
-  ⟨List.Pairwise.nil, List.Pairwise.nil, rfl, fun k s h => by simp [lookupAssoc] at h⟩
+  ⟨List.Pairwise.nil, List.Pairwise.nil, rfl, fun k s h => by simp [lookupAssoc] at h,
+    fun k e h => by simp [lookupAssoc] at h⟩
 
 theorem sel_id (c : Client) (st : Streams) (k : Key) : ∀ x y : Inst, x.id = y.id → sel c st k x = sel c st k y := by
   intro x y h; unfold sel; rw [h]
@@ -151,27 +163,36 @@ theorem inv_update (st : Streams) (c : Client) (h : Inv st c) (d : Desc) (hd : C
   cases hc : ringCompare c.desc d with
   | different =>
     simp only
-    exact ⟨hd, hd, rfl, fun k s hl => by simp [rebuild, lookupAssoc] at hl⟩
+    exact ⟨hd, hd, rfl, fun k s hl => by simp [rebuild, lookupAssoc] at hl,
+      fun k e hl => by simp [rebuild, lookupAssoc] at hl⟩
   | equal =>
     simp only
     have := compare_sound c.desc d h.cdesc hd (by rw [hc]; simp)
-    exact ⟨hd, h.cidx, h.keyEq.trans this, h.cache⟩
+    exact ⟨hd, h.cidx, h.keyEq.trans this, h.cache, h.lb⟩
   | equalButStatesAndTimestamps =>
     simp only
     have := compare_sound c.desc d h.cdesc hd (by rw [hc]; simp)
-    exact ⟨hd, h.cidx, h.keyEq.trans this, h.cache⟩
+    exact ⟨hd, h.cidx, h.keyEq.trans this, h.cache, h.lb⟩
 
-/-- a client that differs from `c` only in its caches satisfies the invariant if its plain cache does. -/
+/-- a client that differs from `c` only in its caches satisfies the invariant if its caches do. -/
 theorem inv_cache (st : Streams) (c c' : Client) (h : Inv st c) (e1 : c'.cfg = c.cfg) (e2 : c'.desc = c.desc)
     (e3 : c'.idx = c.idx)
     (hc : ∀ k s, lookupAssoc k c'.cache = some s →
-      isSelf c k.size 0 0 = false ∧ s.members.map key = (c.idx.filter (sel c st k)).map key) : Inv st c' := by
-  refine ⟨e2 ▸ h.cdesc, e3 ▸ h.cidx, by rw [e2, e3]; exact h.keyEq, ?_⟩
-  intro k s hk
-  have := hc k s hk
-  have hself : isSelf c' k.size 0 0 = isSelf c k.size 0 0 := by unfold isSelf; rw [e3]
-  have hsel : sel c' st k = sel c st k := by unfold sel; rw [e1, e3]
-  rw [hself, hsel, e3]; exact this
+      isSelf c k.size 0 0 = false ∧ s.members.map key = (c.idx.filter (sel c st k)).map key)
+    (hl : ∀ k e, lookupAssoc k c'.lbCache = some e →
+      isSelf c k.size k.period (e.after + k.period) = false ∧
+      e.sub.members.map key = (c.idx.filter (selLB c st k e.after)).map key ∧
+      ∀ m ∈ e.sub.members, TsBound e.after e.before m) : Inv st c' := by
+  have hself : ∀ s p n, isSelf c' s p n = isSelf c s p n := by intro s p n; unfold isSelf; rw [e3]
+  refine ⟨e2 ▸ h.cdesc, e3 ▸ h.cidx, by rw [e2, e3]; exact h.keyEq, ?_, ?_⟩
+  · intro k s hk
+    have := hc k s hk
+    have hsel : sel c' st k = sel c st k := by unfold sel; rw [e1, e3]
+    rw [hself, hsel, e3]; exact this
+  · intro k e hk
+    have := hl k e hk
+    have hsel : selLB c' st k e.after = selLB c st k e.after := by unfold selLB; rw [e1, e3]
+    rw [hself, hsel, e3]; exact this
 
 theorem inv_queryShard (st : Streams) (c : Client) (h : Inv st c) (ident : String) (size : Int) :
     Inv st (queryShard c st ident size).2 := by
@@ -180,7 +201,7 @@ theorem inv_queryShard (st : Streams) (c : Client) (h : Inv st c) (ident : Strin
   cases hl : lookupAssoc (⟨ident, size⟩ : Key) c.cache with
   | some s =>
     simp only
-    refine inv_cache st c _ h rfl rfl rfl ?_
+    refine inv_cache st c _ h rfl rfl rfl ?_ h.lb
     intro k s' hk
     simp only at hk
     rw [lookup_setAssoc] at hk
@@ -196,7 +217,7 @@ theorem inv_queryShard (st : Streams) (c : Client) (h : Inv st c) (ident : Strin
     by_cases hs : isSelf c size 0 0 = true
     · rw [if_pos hs]; exact h
     · rw [if_neg hs]
-      refine inv_cache st c _ h rfl rfl rfl ?_
+      refine inv_cache st c _ h rfl rfl rfl ?_ h.lb
       intro k s' hk
       simp only at hk
       rw [lookup_setAssoc] at hk
@@ -228,18 +249,150 @@ theorem queryShardLB_fields (st : Streams) (c : Client) (ident : String) (size p
     · exact ⟨rfl, rfl, rfl, rfl⟩
     · exact ite_fields _ c _ ⟨rfl, rfl, rfl, rfl⟩
 
-theorem inv_congr (st : Streams) (c c' : Client) (h : Inv st c) (e1 : c'.cfg = c.cfg) (e2 : c'.desc = c.desc)
-    (e3 : c'.idx = c.idx) (e4 : c'.cache = c.cache) : Inv st c' :=
-  inv_cache st c c' h e1 e2 e3 (fun k s hk => h.cache k s (e4 ▸ hk))
+/-! ### the look-back cache -/
+
+def vbStep (w : Int) (b : Int) (i : Inst) : Int :=
+  let b := if i.regTs ≥ w && i.regTs < b then i.regTs else b
+  if i.roTs ≥ w && i.roTs < b then i.roTs else b
+
+theorem validBefore_def (members : Desc) (w : Int) : validBefore members w = members.foldl (vbStep w) C12.maxInt := rfl
+
+theorem vbStep_spec (w b : Int) (i : Inst) : vbStep w b i ≤ b ∧ TsBound w (vbStep w b i) i := by
+  unfold vbStep TsBound
+  simp only
+  by_cases h1 : (decide (i.regTs ≥ w) && decide (i.regTs < b)) = true
+  · rw [if_pos h1]
+    simp only [Bool.and_eq_true, decide_eq_true_eq] at h1
+    by_cases h2 : (decide (i.roTs ≥ w) && decide (i.roTs < i.regTs)) = true
+    · rw [if_pos h2]
+      simp only [Bool.and_eq_true, decide_eq_true_eq] at h2
+      refine ⟨by omega, fun _ => by omega, fun _ => by omega⟩
+    · rw [if_neg h2]
+      simp only [Bool.and_eq_true, decide_eq_true_eq, not_and, Int.not_lt] at h2
+      refine ⟨by omega, fun _ => by omega, fun h => h2 h⟩
+  · rw [if_neg h1]
+    simp only [Bool.and_eq_true, decide_eq_true_eq, not_and, Int.not_lt] at h1
+    by_cases h2 : (decide (i.roTs ≥ w) && decide (i.roTs < b)) = true
+    · rw [if_pos h2]
+      simp only [Bool.and_eq_true, decide_eq_true_eq] at h2
+      refine ⟨by omega, fun h => by have := h1 h; omega, fun _ => by omega⟩
+    · rw [if_neg h2]
+      simp only [Bool.and_eq_true, decide_eq_true_eq, not_and, Int.not_lt] at h2
+      exact ⟨Int.le_refl _, fun h => h1 h, fun h => h2 h⟩
+
+theorem foldl_vb (w : Int) : ∀ (members : Desc) (b0 : Int),
+    members.foldl (vbStep w) b0 ≤ b0 ∧ ∀ m ∈ members, TsBound w (members.foldl (vbStep w) b0) m := by
+  intro members
+  induction members with
+  | nil => intro b0; exact ⟨Int.le_refl _, fun m hm => by cases hm⟩
+  | cons i ms ih =>
+    intro b0
+    rw [List.foldl_cons]
+    have h1 := vbStep_spec w b0 i
+    have h2 := ih (vbStep w b0 i)
+    refine ⟨by omega, ?_⟩
+    intro m hm
+    rcases List.mem_cons.mp hm with rfl | hm
+    · unfold TsBound at h1 ⊢
+      exact ⟨fun h => by have := h1.2.1 h; omega, fun h => by have := h1.2.2 h; omega⟩
+    · exact h2.2 m hm
+
+theorem validBefore_bound (members : Desc) (w : Int) : ∀ m ∈ members, TsBound w (validBefore members w) m :=
+  (foldl_vb w members C12.maxInt).2
+
+theorem tsBound_of_key (a b : Int) : ∀ (L L' : Desc), L'.map key = L.map key → (∀ m ∈ L, TsBound a b m) →
+    ∀ m ∈ L', TsBound a b m := by
+  intro L L' hk h m hm
+  have : key m ∈ L.map key := hk ▸ List.mem_map_of_mem hm
+  obtain ⟨m0, hm0, e⟩ := List.mem_map.mp this
+  have := h m0 hm0
+  simp only [key, Prod.mk.injEq] at e
+  unfold TsBound at this ⊢
+  rw [← e.2.2.2.2.1, ← e.2.2.2.2.2.1]; exact this
+
+theorem inv_queryShardLB (st : Streams) (c : Client) (h : Inv st c) (ident : String) (size period now : Int) :
+    Inv st (queryShardLB c st ident size period now).2 := by
+  unfold queryShardLB
+  simp only
+  cases hl : lookupAssoc (⟨ident, size, period⟩ : LKey) c.lbCache with
+  | some e =>
+    simp only
+    have hentry := h.lb _ e hl
+    by_cases hw : (decide (now - period < e.after) || decide (now - period > e.before)) = true
+    · -- not valid for this window: recompute
+      rw [if_pos hw]
+      simp only
+      by_cases hs : isSelf c size period now = true
+      · rw [if_pos hs]; exact h
+      · rw [if_neg hs]
+        by_cases hstore : decide (e.after < now - period) = true
+        · rw [if_pos hstore]
+          refine inv_cache st c _ h rfl rfl rfl h.cache ?_
+          intro k e' hk
+          simp only at hk
+          rw [lookup_setAssoc] at hk
+          by_cases ek : k = ⟨ident, size, period⟩
+          · rw [if_pos ek] at hk
+            cases hk
+            subst ek
+            simp only
+            have hnow : now - period + period = now := by omega
+            refine ⟨by rw [hnow]; simpa using hs, ?_, validBefore_bound _ _⟩
+            have hsel : selLB c st ⟨ident, size, period⟩ (now - period) =
+                fun i => (shardIds c.cfg c.idx (st ident) size period now).contains i.id := by
+              unfold selLB; simp only [hnow]
+            rw [hsel]
+            simp only [computeMembers]
+            exact (filter_key (fun i => (shardIds c.cfg c.idx (st ident) size period now).contains i.id)
+              (fun x y hxy => by simp only [hxy]) c.idx c.desc h.keyEq).symm
+          · rw [if_neg ek] at hk; exact h.lb k e' hk
+        · rw [if_neg hstore]; exact h
+    · rw [if_neg hw]
+      simp only
+      refine inv_cache st c _ h rfl rfl rfl h.cache ?_
+      intro k e' hk
+      simp only at hk
+      rw [lookup_setAssoc] at hk
+      by_cases ek : k = ⟨ident, size, period⟩
+      · rw [if_pos ek] at hk
+        cases hk
+        subst ek
+        simp only
+        refine ⟨hentry.1, by rw [refresh_key]; exact hentry.2.1, ?_⟩
+        exact tsBound_of_key _ _ e.sub.members _ (refresh_key c.desc e.sub) hentry.2.2
+      · rw [if_neg ek] at hk; exact h.lb k e' hk
+  | none =>
+    simp only
+    by_cases hs : isSelf c size period now = true
+    · rw [if_pos hs]; exact h
+    · rw [if_neg hs]
+      simp only [if_true]
+      refine inv_cache st c _ h rfl rfl rfl h.cache ?_
+      intro k e' hk
+      simp only at hk
+      rw [lookup_setAssoc] at hk
+      by_cases ek : k = ⟨ident, size, period⟩
+      · rw [if_pos ek] at hk
+        cases hk
+        subst ek
+        simp only
+        have hnow : now - period + period = now := by omega
+        refine ⟨by rw [hnow]; simpa using hs, ?_, validBefore_bound _ _⟩
+        have hsel : selLB c st ⟨ident, size, period⟩ (now - period) =
+            fun i => (shardIds c.cfg c.idx (st ident) size period now).contains i.id := by
+          unfold selLB; simp only [hnow]
+        rw [hsel]
+        simp only [computeMembers]
+        exact (filter_key (fun i => (shardIds c.cfg c.idx (st ident) size period now).contains i.id)
+          (fun x y hxy => by simp only [hxy]) c.idx c.desc h.keyEq).symm
+      · rw [if_neg ek] at hk; exact h.lb k e' hk
 
 theorem inv_step (st : Streams) (c : Client) (h : Inv st c) (s : Step) (hs : ∀ d, s = .upd d → Canon d) :
     Inv st (stepC st c s) := by
   cases s with
   | upd d => exact inv_update st c h d (hs d rfl)
   | qS i sz => exact inv_queryShard st c h i sz
-  | qL i sz p n =>
-    have := queryShardLB_fields st c i sz p n
-    exact inv_congr st c _ h this.1 this.2.1 this.2.2.1 this.2.2.2
+  | qL i sz p n => exact inv_queryShardLB st c h i sz p n
 
 theorem inv_run (st : Streams) : ∀ (steps : List Step) (c : Client), Inv st c → CanonSteps steps → Inv st (run st c steps) := by
   intro steps
@@ -301,10 +454,10 @@ theorem isSelf_congr (c c' : Client) (h : c.idx.map core = c'.idx.map core) (siz
     isSelf c size period now = isSelf c' size period now := by
   unfold isSelf; rw [h]
 
-/-- **plain shuffle shard**: the long-lived client's answer equals the fresh client's answer in
-every field of every member except Versions. -/
+/-- **plain shuffle shard**: the long-lived client's answer equals the fresh client's answer (every
+field of every member). -/
 theorem queryShard_equiv (st : Streams) (c : Client) (h : Inv st c) (ident : String) (size : Int) :
-    eraseV (queryShard c st ident size).1 = eraseV (queryShard (fresh c.cfg c.desc) st ident size).1 := by
+    (queryShard c st ident size).1 = (queryShard (fresh c.cfg c.desc) st ident size).1 := by
   have hcore : c.idx.map core = c.desc.map core := core_of_key _ _ h.keyEq
   have hids : shardIds c.cfg c.idx (st ident) size 0 0 = shardIds c.cfg c.desc (st ident) size 0 0 :=
     PfC12.shard_ignores_state_ts _ _ _ _ _ _ _ hcore
@@ -351,7 +504,7 @@ theorem get1_equiv (st : Streams) (c : Client) (h : Inv st c) (k : Nat) :
   simp only
   rw [core_of_key _ _ h.keyEq]
 
-theorem filter_length_key (Q : String × String × String × List Nat × Int × Int × Bool → Bool) :
+theorem filter_length_key (Q : String × String × String × List Nat × Int × Int × Bool × List (Nat × Nat) → Bool) :
     ∀ (a b : Desc), a.map key = b.map key → (a.filter fun i => Q (key i)).length = (b.filter fun i => Q (key i)).length := by
   intro a
   induction a with
@@ -377,7 +530,7 @@ theorem counts_equiv (st : Streams) (c : Client) (h : Inv st c) (zs : List Strin
   simp only
   have hcore := core_of_key _ _ h.keyEq
   have e1 := filter_length_key (fun k => !k.2.2.2.1.isEmpty) _ _ h.keyEq
-  have e2 := filter_length_key (fun k => !k.2.2.2.1.isEmpty && !k.2.2.2.2.2.2) _ _ h.keyEq
+  have e2 := filter_length_key (fun k => !k.2.2.2.1.isEmpty && !k.2.2.2.2.2.2.1) _ _ h.keyEq
   have e3 : ∀ z, ((c.idx.filter (·.zone == z)).length, ((c.idx.filter (·.zone == z)).filter fun i => !i.tokens.isEmpty).length,
       ((c.idx.filter (·.zone == z)).filter fun i => !i.tokens.isEmpty && !i.ro).length) =
       ((c.desc.filter (·.zone == z)).length, ((c.desc.filter (·.zone == z)).filter fun i => !i.tokens.isEmpty).length,
@@ -385,7 +538,7 @@ theorem counts_equiv (st : Streams) (c : Client) (h : Inv st c) (zs : List Strin
     intro z
     have a1 := filter_length_key (fun k => k.2.2.1 == z) _ _ h.keyEq
     have a2 := filter_length_key (fun k => (k.2.2.1 == z) && !k.2.2.2.1.isEmpty) _ _ h.keyEq
-    have a3 := filter_length_key (fun k => (k.2.2.1 == z) && (!k.2.2.2.1.isEmpty && !k.2.2.2.2.2.2)) _ _ h.keyEq
+    have a3 := filter_length_key (fun k => (k.2.2.1 == z) && (!k.2.2.2.1.isEmpty && !k.2.2.2.2.2.2.1)) _ _ h.keyEq
     simp only [key] at a1 a2 a3
     simp only [List.filter_filter]
     rw [Prod.mk.injEq, Prod.mk.injEq]
